@@ -1,6 +1,6 @@
 (* Entry points used by the correspondence check (harness/c18.py). *)
 From Coq Require Import NArith List Bool.
-From PV Require Import Gen.FileSelConst Cli.Glob Cli.FileSel.
+From PV Require Import Gen.FileSelConst Cli.Glob Cli.GlobX Cli.FileSel.
 Import ListNotations.
 Open Scope N_scope.
 
@@ -24,8 +24,44 @@ Definition run_case (w : node) (cwd : list name) (ts : list spath) (recursive : 
   (run_collect w cwd ts recursive inc exc, run_collect_abs w cwd ts recursive inc exc,
    run_spec w cwd ts recursive inc exc).
 
+(* compact output for big trees: every location as its index in a list of candidate files given relative to
+   the directory [root] (the number of candidates = not among them) *)
+Fixpoint strip_prefix (pre f : list name) : option (list name) :=
+  match pre, f with
+  | [], _ => Some f
+  | p :: pre', x :: f' => if str_eqb p x then strip_prefix pre' f' else None
+  | _ :: _, [] => None
+  end.
+Fixpoint index_of (cands : list (list name)) (f : list name) (i : N) : N :=
+  match cands with
+  | [] => i
+  | c :: cs => if names_eqb c f then i else index_of cs f (i + 1)
+  end.
+Definition loc_index (root : list name) (cands : list (list name)) (f : list name) : N :=
+  match strip_prefix root f with
+  | Some r => index_of cands r 0
+  | None => N.of_nat (length cands)
+  end.
+(* (model locations in order, spec locations), as indices *)
+Definition run_case_idx (w : node) (root : list name) (cands : list (list name)) (cwd : list name) (ts : list spath)
+           (recursive : bool) (inc exc : list str) : option (list N) * list N :=
+  (option_map (map (loc_index root cands)) (run_collect_abs w cwd ts recursive inc exc),
+   map (loc_index root cands) (run_spec w cwd ts recursive inc exc)).
+
 Definition default_patterns := (filesel_default_include, filesel_default_exclude, filesel_default_recursive).
 
 Definition run_glob (p n : str) : bool * bool := (glob_str p n, pat_ok p && name_ok n).
+
+(* the full pattern language (Cli/GlobX.v): match, inside the compared domain, class against separator *)
+Definition run_xglob (p n : str) : bool * bool * bool := (xglob_str p n, xpat_ok p && name_ok n, eats_str p n).
+(* one row of the differential test: results of one pattern on chunks of names, bit-packed *)
+Definition xrow (p : str) (chunks : list (list str)) : list N * bool := (map (xglob_row p) chunks, xpat_ok p).
+Definition xrow_e (p : str) (chunks : list (list str)) : list N * list N * bool :=
+  (map (xglob_row p) chunks, map (eats_row p) chunks, xpat_ok p).
+(* can some pattern of the list bring a class against a separator of this path (known finding C18-G4)? *)
+Definition run_eats (pats : list str) (rels : list (list name)) : list bool :=
+  map (fun rel => existsb (fun p => eats_path p rel) pats) rels.
+Definition run_include_e (rel : list name) (inc exc : list str) : bool * bool :=
+  (should_include_file rel inc exc, existsb (fun p => eats_path p rel) (inc ++ exc)).
 Definition run_skipdirs (ns : list name) : list bool := map should_skip_directory ns.
 Definition run_include (rel : list name) (inc exc : list str) : bool := should_include_file rel inc exc.
